@@ -153,7 +153,7 @@ def run(scn, stats):
 
 
 CFG = gen.cfg(items=0.2, retry=0.2, retry_cmd=True, p_loop=0.2, p_join=0.7)
-FLAGS = {"pending": 1}
+FLAGS = {"pending": 1, "interim": 1}  # in-flight actions may report `canceling` before they report `canceled`
 CONTROLS = {"pause": 1, "resume": 1}
 
 
